@@ -391,6 +391,18 @@ def enumerate_cases(ctx):
                     ([[0, 1, 2]], [70000, 1])):
         ctx.run('from_sparse', {'cols': tab, 'nloc': len(tab[0]), 'ch': ch, 'trail': [2], 'cols_dtype': 'int64'})
 
+    # wide, many-channel requests (probe-sized): NumPy's isin switches to its sort-based path there, and stored channels that are
+    # NOT requested repeat across spikes
+    ctx.scope('from_sparse on probe-sized requests: 16-48 requested channels spread over 0..383 (every 8th/16th/24th), 2-4 spikes x 6-8 '
+              'stored columns sharing non-requested channels')
+    for step, nreq in ((16, 24), (8, 48), (24, 16)):
+        ch = [step * i for i in range(nreq)]
+        for ns in (2, 3, 4):
+            nloc = 8 if ns < 4 else 6
+            tab = [[(7 + 3 * j) if j % 2 else ch[(s_ + j) % nreq] for j in range(nloc)] for s_ in range(ns)]   # odd columns: non-requested, repeated across spikes
+            ctx.run('from_sparse', {'cols': tab, 'nloc': nloc, 'ch': ch, 'trail': [], 'cols_dtype': 'int32'})
+            ctx.run('from_sparse', {'cols': tab, 'nloc': nloc, 'ch': ch[::-1], 'trail': [3], 'cols_dtype': 'int64'})
+
     # ---- _index_of ------------------------------------------------------------------------------
     ctx.scope('_index_of: lookups = all ordered lists of 1-3 distinct ids of {0..4} (optionally followed by -1 as in '
               'from_sparse), arr = the lookup reversed and with repeats')
